@@ -46,12 +46,14 @@ def build(S, tier):
                 v = I.call(I.get_class(VER), [dt], {"max_steps": nsteps, "apply_constraints": apply_c})
                 ctx = mk_ctx(I, atoms)
                 q0, p0 = atoms.positions.copy(), atoms.momenta.copy()
+                before = dict(v.attrs)
                 I.call(I.getattr(v, "integrate"), [ctx], {})
+                state_changed = sorted(k for k in set(v.attrs) | set(before) if v.attrs.get(k, None) is not before.get(k, None))
                 q1, p1 = atoms.positions.copy(), atoms.momenta.copy()
                 log1 = list(atoms.log)
                 atoms.momenta = Tensor((atoms.k, 3), [ops.unop(I, "USub", x) for x in atoms.momenta.data])
                 I.call(I.getattr(v, "integrate"), [ctx], {})
-                return dict(q0=q0, p0=p0, q1=q1, p1=p1, q2=atoms.positions.copy(), p2=atoms.momenta.copy(), log1=log1, dt=dt, v=v, atoms=atoms)
+                return dict(q0=q0, p0=p0, q1=q1, p1=p1, q2=atoms.positions.copy(), p2=atoms.momenta.copy(), log1=log1, dt=dt, v=v, atoms=atoms, state_changed=state_changed)
 
             fq = VER + ".integrate"
             tag = f"{'constrained-branch' if apply_c else 'plain-branch'},{nsteps}step"
@@ -112,6 +114,32 @@ def build(S, tier):
         v = p.value
         S.prove_rational(f"{fq}#loop.same_map_every_iteration@{i}",
                          [(R(a), R(b)) for a, b in zip(v["a1"].positions.data + v["a1"].momenta.data, v["a2"].positions.data + v["a2"].momenta.data)], hyps=p.pc, kind="loop")
+
+    # a trajectory depends on the state it starts from only: after an (externally) restored state, e.g. a rejected
+    # trial, the same integrator object produces what a fresh one produces
+    def run_hist(I):
+        a, b = AtomsMD(I), AtomsMD(I, tag="b")
+        dt = I.path.fresh("dt")
+        I.path.assume(dt.t > 0)
+        used = I.call(I.get_class(VER), [dt], {"max_steps": 1})
+        fresh = I.call(I.get_class(VER), [dt], {"max_steps": 1})
+        I.call(I.getattr(used, "integrate"), [mk_ctx(I, a)], {})                     # an earlier trajectory (then rejected)
+        qa = Tensor((a.k, 3), [I.path.fresh(f"qr{i}") for i in range(a.k * 3)])       # the restored state: anything
+        pa = Tensor((a.k, 3), [I.path.fresh(f"pr{i}") for i in range(a.k * 3)])
+        a.positions, a.momenta = qa.copy(), pa.copy()
+        b.positions, b.momenta, b.masses, b.force_fns = qa.copy(), pa.copy(), a.masses, a.force_fns
+        I.call(I.getattr(used, "integrate"), [mk_ctx(I, a)], {})
+        I.call(I.getattr(fresh, "integrate"), [mk_ctx(I, b)], {})
+        return dict(a=a, b=b)
+
+    for i, p in enumerate(S.explore(run_hist, fq + "[after a restored state]")):
+        if p.status != "return":
+            if p.status == "raise":
+                S.prove(f"{fq}#noraise[after a restored state]@{i}", False, kind="noraise", why=f"raises {p.exc!r}")
+            continue
+        v = p.value
+        S.prove_rational(f"{fq}#ensures.trajectory_depends_on_the_start_state_only@{i}",
+                         [(R(x), R(y)) for x, y in zip(v["a"].positions.data + v["a"].momenta.data, v["b"].positions.data + v["b"].momenta.data)], hyps=p.pc)
 
     # ------------------------------------------------------------------ Maxwell-Boltzmann refresh
     MB = "quansino.utils.dynamics.maxwell_boltzmann_distribution"
